@@ -201,6 +201,37 @@ def check_case(spec):
         dyn_theta = None if dyn is None or dyn.theta is None else np.array(dyn.theta)
         dyn_iters = None if dyn is None or dyn.screening_iterations is None else np.array(dyn.screening_iterations)
         data_range = sol.data_range
+        dyn_time = None if dyn is None else np.array(dyn.time)
+        # derived views, queried at generated-looking times: every frame time, midpoints, slightly off, before and after the run
+        closest, closest_dyn, probe_views = {}, {}, {}
+        if sol_times is not None and len(sol_times) and dyn is not None and len(dyn.dt):
+            tend = float(np.sum(dyn.dt))
+            qs = sorted(set([-1.0, 0.0, 2.0 * tend + 1.0, 0.31 * tend, 0.77 * tend] + [float(t) for t in sol_times[:6]]
+                            + [float(0.5 * (a + b)) * 1.001 for a, b in zip(sol_times[:5], sol_times[1:6])]))
+            for q in qs:
+                try:
+                    closest[repr(q)] = int(sol.closest_solve_step(q))
+                except Exception:  # noqa: BLE001
+                    closest[repr(q)] = None
+                try:
+                    closest_dyn[repr(q)] = int(dyn.closest_time(q))
+                except Exception:  # noqa: BLE001
+                    closest_dyn[repr(q)] = None
+            npr_ = 0 if dyn.mu is None else np.atleast_2d(dyn.mu).shape[0]
+            if npr_ >= 2:
+                pairs = [(0, 1), (1, 0)] + ([(0, 2), (2, 1)] if npr_ >= 3 else [])
+                for (i, j) in pairs:
+                    try:
+                        v = np.array(dyn.voltage(i, j)); ph = np.array(dyn.phase_difference(i, j))
+                    except Exception:  # noqa: BLE001
+                        v = ph = None
+                    mv = {}
+                    for (tmin, tmax) in ((-np.inf, np.inf), (0.3 * tend, np.inf), (-np.inf, 0.6 * tend), (0.2 * tend, 0.8 * tend)):
+                        try:
+                            mv[(tmin, tmax)] = float(dyn.mean_voltage(i, j, tmin=tmin, tmax=tmax))
+                        except Exception:  # noqa: BLE001
+                            mv[(tmin, tmax)] = None
+                    probe_views[(i, j)] = (v, ph, mv)
         # load every recorded step through the public API
         api_digests = []
         for j in range(len(frames)):
@@ -309,8 +340,11 @@ def check_case(spec):
             got = cols.get("screening_iterations")
             if got is None or len(np.atleast_1d(got)) != len(recs):
                 res.fail("C05.records_screening", f"frame step {s}: screening iteration record has {None if got is None else len(np.atleast_1d(got))} entries, expected {len(recs)}")
-            elif np.any(np.atleast_1d(got) < 1):
-                res.fail("C05.records_screening", f"frame step {s}: screening iteration counts {got}")
+            else:
+                want_it = np.array([rec_calls[j]["screening_calls"] for j in recs])
+                if not np.array_equal(np.atleast_1d(got).astype(int), want_it):
+                    res.fail("C05.records_screening", f"frame step {s}: screening iteration record {np.atleast_1d(got)[:8]}, the updates of steps "
+                             f"{recs[0]}..{recs[-1]} made {want_it[:8]} iterations")
 
     # ---- loaded solution
     exp_times = np.array([float(e[1]) for e in exp])
@@ -327,8 +361,46 @@ def check_case(spec):
         if dyn_theta is None or dyn_theta.shape != wth.shape or not np.array_equal(dyn_theta, wth):
             res.fail("C05.dynamics_theta", f"Solution.dynamics.theta shape {None if dyn_theta is None else dyn_theta.shape}, expected {wth.shape}")
     if o.get("include_screening") and N >= 1:
+        want_it = np.array([c["screening_calls"] for c in rec_calls[:N]])
         if dyn_iters is None or len(dyn_iters) != N:
             res.fail("C05.dynamics_screening", f"Solution.dynamics.screening_iterations has {None if dyn_iters is None else len(dyn_iters)} entries, expected {N}")
+        elif not np.array_equal(np.asarray(dyn_iters).astype(int), want_it):
+            res.fail("C05.dynamics_screening", f"Solution.dynamics.screening_iterations = {np.asarray(dyn_iters)[:8]}, the updates made {want_it[:8]} iterations")
+    # ---- derived views of the per-step records and of the frame times (public API of the loaded solution)
+    if N >= 1 and dyn_dt is not None and len(dyn_dt) == N:
+        step_times = np.cumsum(want_all)  # time after each recorded step: "cumulative sum of the time step"
+        if dyn_time is None or len(dyn_time) != N or not np.allclose(dyn_time, step_times, rtol=1e-12, atol=0):
+            res.fail("C05.dynamics_time", f"Solution.dynamics.time = {None if dyn_time is None else dyn_time[:5]}, cumulative sum of the per-step dt is {step_times[:5]}")
+        for q, got_i in closest.items():
+            q = float(q)
+            dist = np.abs(exp_times - q)
+            if got_i is None or not (0 <= got_i < len(exp_times)) or dist[got_i] > dist.min() * (1 + 1e-9) + 1e-12 * abs(q):
+                res.fail("C05.closest_solve_step", f"closest_solve_step({q!r}) = {got_i}, frame times are {exp_times[:8]} (closest is frame {int(np.argmin(dist))})")
+        for q, got_i in closest_dyn.items():
+            q = float(q)
+            dist = np.abs(step_times - q)
+            if got_i is None or not (0 <= got_i < N) or dist[got_i] > dist.min() * (1 + 1e-9) + 1e-12 * abs(q):
+                res.fail("C05.closest_time", f"dynamics.closest_time({q!r}) = {got_i}, step times are {step_times[:8]}")
+        if spec["device"].get("probes") and dyn_mu is not None and dyn_mu.shape == (len(spec["device"]["probes"]), N):
+            wmu = np.array([c["probe_mu"] for c in rec_calls[:N]]).T
+            wth = np.array([c["probe_theta"] for c in rec_calls[:N]]).T
+            npr = wmu.shape[0]
+            for (i, j), (v, ph, mv) in probe_views.items():
+                if v is None or np.shape(v) != (N,) or not np.array_equal(v, wmu[i] - wmu[j]):
+                    res.fail("C05.voltage", f"dynamics.voltage({i},{j}) is not mu_{i} - mu_{j} of the recorded steps")
+                if ph is None or np.shape(ph) != (N,) or not np.array_equal(ph, wth[i] - wth[j]):
+                    res.fail("C05.phase_difference", f"dynamics.phase_difference({i},{j}) is not theta_{i} - theta_{j} of the recorded steps")
+                for (tmin, tmax), m in mv.items():
+                    sel = (step_times >= tmin) & (step_times <= tmax)
+                    if not sel.any():
+                        continue
+                    # whether a step exactly on a window bound belongs to the window is not stated anywhere: not asserted
+                    if any(np.isfinite(b) and np.any(np.abs(step_times - b) <= 1e-9 * step_times[-1]) for b in (tmin, tmax)):
+                        continue
+                    w = float(np.sum((wmu[i] - wmu[j])[sel] * want_all[sel]) / np.sum(want_all[sel]))
+                    sc = float(np.max(np.abs(wmu[i] - wmu[j])[sel])) + 1e-300
+                    if m is None or not np.isfinite(m) or abs(m - w) > 1e-9 * sc:
+                        res.fail("C05.mean_voltage", f"dynamics.mean_voltage({i},{j},{tmin!r},{tmax!r}) = {m!r}, dt-weighted mean of the recorded steps in the window is {w!r}")
     # thermalisation calls never recorded: guaranteed by the digests above (thermal outputs
     # differ from recording outputs) plus the label restart checked in C05.update_label
     if thermal and len(stages) == 2 and rec_calls and stages[0]:
